@@ -999,6 +999,15 @@ def pstep (st : PState) (f : PField) : PState :=
 def handle (docHasBody : Bool) (fields : List PField) : PState :=
   fields.foldl pstep ⟨docHasBody, none, none, []⟩
 
+/-- `ensure_parsed_docstring(sub)` when `sub` has no docstring of its own: `parse_docstring(sub, doc, source)` on the
+source TEXT — every field is there for `FieldHandler` (the routing of `_handlePropertyDef` concerns the defining
+property only) -/
+def inheritedView (docHasBody : Bool) (fields : List PField) : PState :=
+  -- when a `@return` became the description, `_handlePropertyDef` set `attr.docstring = ''`: `get_docstring` then
+  -- finds an empty docstring on the source and the inheriting property gets nothing at all
+  if (handle docHasBody fields).description.isSome then ⟨false, none, none, []⟩
+  else ⟨docHasBody, none, none, fields⟩
+
 end Property
 
 /-! ## `epydoc2stan.extract_fields`: which attribute of a module / class gets which text
@@ -1069,3 +1078,47 @@ def shownType (parsedType : Option Nat) (ownTypeFields : List Nat) (annotation :
     | none => annotation
 
 end Attrs
+
+/-! ## `pydoctor/napoleon/docstring.py`: `_get_indent`, `_get_min_indent`, `_dedent` (continuation lines of google / numpy fields)
+
+```
+def _get_indent(self, line):
+    for i, s in enumerate(line):
+        if not s.isspace(): return i
+    return len(line)
+def _get_min_indent(self, lines):
+    min_indent = None
+    for line in lines:
+        if line:
+            indent = self._get_indent(line)
+            if min_indent is None: min_indent = indent
+            elif indent < min_indent: min_indent = indent
+    return min_indent or 0
+def _dedent(self, lines, full=False):
+    … min_indent = self._get_min_indent(lines); return [line[min_indent:] for line in lines]
+``` -/
+namespace Napoleon
+open Epytext (pyIsSpace Line)
+
+def getIndent (line : Line) : Nat := (line.takeWhile pyIsSpace).length
+
+def minIndentLoop : List Line → Option Nat → Option Nat
+  | [], m => m
+  | l :: ls, m =>
+    if l.isEmpty then minIndentLoop ls m
+    else
+      match m with
+      | none => minIndentLoop ls (some (getIndent l))
+      | some k => minIndentLoop ls (some (if getIndent l < k then getIndent l else k))
+
+def getMinIndent (lines : List Line) : Nat := (minIndentLoop lines none).getD 0
+
+/-- `_dedent(lines)` (`full=False`) -/
+def dedent (lines : List Line) : List Line := lines.map (·.drop (getMinIndent lines))
+
+/-- `_get_initial_indent`: the indentation of the first non-empty line -/
+def getInitialIndent : List Line → Nat
+  | [] => 0
+  | l :: ls => if l.isEmpty then getInitialIndent ls else getIndent l
+
+end Napoleon
